@@ -89,6 +89,37 @@ def sc_cond_mixed_dtypes():
             return {"confirmed": True, "scenario": "Cond with branches of different return dtypes", "observed": "raised %s: %s" % (type(e).__name__, str(e)[:200]), "required": "defined"}
     return {"confirmed": False}
 
+def sc_cond_mixture_indicator():
+    """C09's mixture-indicator move at the GFI level: regenerate of the indicator z of  y ~ Cond(N(-3,1), N(3,1))(z)  with
+    y observed: the weight is log p(y | z') - log p(y | z) (nothing inside the Cond is selected)"""
+    draws = iter([True, False, False, True])
+    ind = distribution(lambda p: jnp.asarray(next(draws)), lambda x, p: jnp.where(x, jnp.log(p), jnp.log1p(-p)), name="ind")
+    @gen
+    def left():
+        return nrm(-3.0) @ "y"
+    @gen
+    def right():
+        return nrm(3.0) @ "y"
+    @gen
+    def model():
+        z = ind(0.3) @ "z"
+        return Cond(left, right)(z) @ "obs"
+    try:
+        tr, _ = model.generate({"z": jnp.asarray(True), "obs": {"y": jnp.asarray(2.5)}})
+        lp_old, _ = model.assess(tr.get_choices())
+        pz = lambda z: jnp.where(z, jnp.log(0.3), jnp.log1p(-0.3))
+        for _k in range(3):
+            t2, w2, _d = model.regenerate(tr, sel("z"))
+            c2 = t2.get_choices()
+            lp_new, _ = model.assess(c2)
+            req = (lp_new - lp_old) - (pz(c2["z"]) - pz(tr.get_choices()["z"]))
+            if not close(w2, req, 1e-3) or not close(c2["obs"]["y"], 2.5) or not close(t2.get_score(), -lp_new, 1e-3):
+                return {"confirmed": True, "scenario": "regenerate(sel('z')) on z ~ ind(0.3); y ~ Cond(N(-3,1), N(3,1))(z), y = 2.5 observed, z: True -> %s" % bool(c2["z"]),
+                        "observed": {"weight": float(w2), "y": float(c2["obs"]["y"]), "score": float(t2.get_score())}, "required": {"weight": float(req), "y": 2.5, "score": float(-lp_new)}}
+    except Exception as e:
+        return {"confirmed": True, "scenario": "mixture-indicator regenerate", "observed": "raised %s: %s" % (type(e).__name__, str(e)[:200]), "required": "defined"}
+    return {"confirmed": False}
+
 def sc_scan_regenerate():
     @gen
     def step(c, x):
